@@ -38,6 +38,11 @@ pub uninterp spec fn ge_s(a: R, b: R) -> bool;
 // C19: narrowing to f64 is allowed only where a unit says so (the Gamma boundary, src/gamma.rs:11-29)
 pub uninterp spec fn narrowing_allowed() -> bool;
 
+/// a scalar operand passed by value or by reference (the trait has both `RefMul<&Self>` and `RefMul<Self>`)
+pub trait RArg: Sized { spec fn rv(self) -> R; }
+impl RArg for R { open spec fn rv(self) -> R { self } }
+impl<'a> RArg for &'a R { open spec fn rv(self) -> R { *self } }
+
 impl R {
     #[verifier::external_body] pub fn one(&self) -> (r: R) ensures r == one_s() { unimplemented!() }
     #[verifier::external_body] pub fn zero(&self) -> (r: R) ensures r == zero_s() { unimplemented!() }
@@ -54,10 +59,10 @@ impl R {
     #[verifier::external_body] pub fn from_f64(&self, value: f64) -> (r: R) ensures r == from_f64_s(value) { unimplemented!() }
     #[verifier::external_body] pub fn to_f64(&self) -> (r: f64) requires narrowing_allowed() /* [C19] narrowing to f64 outside the Gamma boundary */ ensures r == to_f64_s(*self) { unimplemented!() }
     // ref_ops::{RefAdd,RefSub,RefMul,RefDiv}: blanket impls forwarding to `&a ⊕ b`
-    #[verifier::external_body] pub fn ref_add(&self, rhs: &R) -> (r: R) ensures r == add_s(*self, *rhs) { unimplemented!() }
-    #[verifier::external_body] pub fn ref_sub(&self, rhs: &R) -> (r: R) ensures r == sub_s(*self, *rhs) { unimplemented!() }
-    #[verifier::external_body] pub fn ref_mul(&self, rhs: &R) -> (r: R) ensures r == mul_s(*self, *rhs) { unimplemented!() }
-    #[verifier::external_body] pub fn ref_div(&self, rhs: &R) -> (r: R) ensures r == div_s(*self, *rhs) { unimplemented!() }
+    #[verifier::external_body] pub fn ref_add<A: RArg>(&self, rhs: A) -> (r: R) ensures r == add_s(*self, rhs.rv()) { unimplemented!() }
+    #[verifier::external_body] pub fn ref_sub<A: RArg>(&self, rhs: A) -> (r: R) ensures r == sub_s(*self, rhs.rv()) { unimplemented!() }
+    #[verifier::external_body] pub fn ref_mul<A: RArg>(&self, rhs: A) -> (r: R) ensures r == mul_s(*self, rhs.rv()) { unimplemented!() }
+    #[verifier::external_body] pub fn ref_div<A: RArg>(&self, rhs: A) -> (r: R) ensures r == div_s(*self, rhs.rv()) { unimplemented!() }
     #[verifier::external_body] pub fn ref_neg(&self) -> (r: R) ensures r == neg_s(*self) { unimplemented!() }
 }
 impl Clone for R {
@@ -188,4 +193,4 @@ pub broadcast axiom fn ax_mul_comm(a: R, b: R) ensures #[trigger] mul_s(a, b) ==
 pub broadcast axiom fn ax_gt_dual(a: R, b: R) ensures #[trigger] gt_s(a, b) == lt_s(b, a);
 pub broadcast axiom fn ax_ge_dual(a: R, b: R) ensures #[trigger] ge_s(a, b) == le_s(b, a);
 pub broadcast axiom fn ax_eq_sym(a: R, b: R) ensures #[trigger] eq_s(a, b) == eq_s(b, a);
-pub broadcast group scalar_laws { ax_add_comm, ax_mul_comm, ax_gt_dual, ax_ge_dual, ax_eq_sym }
+// the group `scalar_laws` itself is declared in lib.rs, after the f64 symbols, so that it can contain the same laws for f64
